@@ -46,7 +46,8 @@ Inductive pc :=
 | PLoadId (first : N)
 | PLoadTs (first id : N)
 | PSave (first id ts : N)
-| PDone (first : N).
+| PDone (first : N)
+| PFail (first : N).       (* the checkpoint write failed: the request returned an error, nothing was responded *)
 
 Record thread := { th_req : req; th_pc : pc }.
 
@@ -92,6 +93,9 @@ Definition init (id_start ts_start : N) (reqs : list req) : gstate :=
 
 Section Variant.
   Variable fixed : bool.
+  (** requests whose checkpoint write fails (I/O error in SaveAllocatorState before anything is
+      written: the file keeps its content, the request returns an error instead of a response) *)
+  Variable failing : nat -> bool.
 
   Definition set_thread (g : gstate) (t : nat) (th : thread) (p : pc) : list thread :=
     set_nth t {| th_req := th_req th; th_pc := p |} (g_threads g).
@@ -137,6 +141,14 @@ Section Variant.
                 g_log_id := g_log_id g; g_log_ts := g_log_ts g;
                 g_resp := g_resp g; g_resp_old := g_resp_old g |}
     | PSave first id ts =>
+        if failing t then
+          Some {| g_ids := g_ids g; g_tso := g_tso g; g_ck_id := g_ck_id g; g_ck_ts := g_ck_ts g;
+                  g_mu := if fixed then false else g_mu g;
+                  g_threads := set_thread g t th (PFail first);
+                  g_base_id := g_base_id g; g_base_ts := g_base_ts g;
+                  g_log_id := g_log_id g; g_log_ts := g_log_ts g;
+                  g_resp := g_resp g; g_resp_old := g_resp_old g |}
+        else
         (* file replaced; deferred persistMu.Unlock; the response is returned *)
         Some {| g_ids := g_ids g; g_tso := g_tso g; g_ck_id := id; g_ck_ts := ts;
                 g_mu := if fixed then false else g_mu g;
@@ -144,7 +156,7 @@ Section Variant.
                 g_base_id := g_base_id g; g_base_ts := g_base_ts g;
                 g_log_id := g_log_id g; g_log_ts := g_log_ts g;
                 g_resp := (r_kind r, first, n) :: g_resp g; g_resp_old := g_resp_old g |}
-    | PDone _ => None
+    | PDone _ | PFail _ => None
     end.
 
   Definition tstep (g : gstate) (l : label) : option gstate :=
